@@ -173,6 +173,19 @@ class Counters:
             eng.violate("EFF-2", "unaccounted-write:weak", "the weak count of %s is overwritten with a constant" % show(b), ev.b, st)
         return None
 
+    def on_store(self, eng, ev, st):
+        # a whole header struct written into a fresh allocation: `ptr::write(&mut (*b).header, Header::new())`
+        p = ev.place
+        v = ev.value
+        if p[0] == "field" and p[3] == "cactusref::rc::RcBox" and p[1][0] == "deref" and v[0] == "agg" and v[2].startswith("cactusref::"):
+            if counters_start_at_one(("agg", "adt", "", "", 0, v[5])):
+                b = p[1][1]
+                eng.obl("EFF-2", "write:header:init", ev.b)
+                if alloc_root(b) is None:
+                    eng.violate("EFF-2", "init-on-existing:header", "the counters of an existing object %s are reset" % show(b), ev.b, st)
+                return add(st, ("init", "strong", b), ("init", "weak", b))
+        return None
+
     def on_handle_new(self, eng, ev, st):
         kind, b = ev.handle, ev.ptr
         self.note("handle_new:%s" % kind, ev.b)
@@ -204,6 +217,8 @@ class Counters:
         unsafe_fn = bool(self.fn.f.get("unsafe"))
         for f in st.flags:
             if f[0] == "inc_pending":
+                if unsafe_fn and from_raw_param(f[2], self.fn):
+                    continue   # the caller's raw pointer owns the new count (documented contract of an unsafe fn)
                 eng.violate("TS-9", "count-without-handle:%s" % f[1], "the %s count of %s is raised on this path but no %s handle to it is created" % ("strong" if f[1] == "Rc" else "weak", show(f[2]), f[1]), ev.b, st)
             elif f[0] == "xfer_new":
                 kind, b = f[1], f[2]
@@ -232,17 +247,29 @@ def fresh_box(b, st):
 
     def pred(x):
         if x[0] == "agg" and x[2] == "cactusref::rc::RcBox":
-            d = dict(x[5])
-            ok = True
-            for fld in ("strong", "weak"):
-                v = d.get(fld)
-                if not (v and v[0] == "call" and v[2] == "core::cell::Cell::<T>::new" and v[3] and is_const(v[3][0], 1)):
-                    ok = False
-            found.append(ok)
+            found.append(counters_start_at_one(x))
             return True
         return False
     mentions(b, pred)
     return bool(found) and all(found)
+
+
+def counters_start_at_one(agg):
+    """Both counters of an RcBox (or of a header struct nested in it) are initialised with Cell::new(1)."""
+    vals = {}
+
+    def walk(a, depth):
+        for name, v in a[5]:
+            if name in ("strong", "weak"):
+                vals[name] = v
+            elif v[0] == "agg" and v[2].startswith("cactusref::") and depth < 2:
+                walk(v, depth + 1)
+    walk(agg, 0)
+    for fld in ("strong", "weak"):
+        v = vals.get(fld)
+        if not (v and v[0] == "call" and v[2] == "core::cell::Cell::<T>::new" and v[3] and is_const(v[3][0], 1)):
+            return False
+    return True
 
 
 def is_sentinel(b):
